@@ -185,9 +185,54 @@ impl Engine for CrashEngine {
             }
             clients.push(ops);
         }
+        // full-device family (own tape): one client fills the data area completely with 3-6 records
+        // and makes that durable; every later delete + re-creation of a key (same number of
+        // blocks) can only be written once the retirement of the deleted generation has freed its
+        // blocks - inside the same flush() that acknowledges the re-creation. Plain overwrites
+        // (which cannot be written at all: the flush reports OutOfSpace and ends the workload) close it.
+        let mut fd = Tape::fresh(mix(seed, 0xF0DE));
+        let full_device = matches!(property, "C02" | "C03" | "C05") && fd.chance(1, 6);
+        let (store, keys, clients, sim) = if full_device {
+            let n = 3 + fd.below(4) as usize;
+            let sizes: Vec<usize> = (0..n).map(|_| 1 + fd.below(3) as usize).collect();
+            let keys: Vec<Vec<u8>> = (0..n).map(|i| format!("fd{i}").into_bytes()).collect();
+            let len_for = |blocks: usize, salt: usize| blocks * 4096 - 400 - (salt % 200);
+            let mut ops: Vec<Op> = Vec::new();
+            for (key, b) in sizes.iter().enumerate() {
+                ops.push(Op::Insert { key, val: Val { len: len_for(*b, key), kind: ValKind::Plain }, ts: Ts::Auto, ttl: 0, bytes: fd.chance(1, 2) });
+            }
+            ops.push(Op::Flush);
+            for round in 0..2 + fd.below(4) as usize {
+                let key = fd.below(n as u32) as usize;
+                ops.push(Op::Delete { key, ts: Ts::Auto });
+                if fd.chance(1, 4) {
+                    ops.push(Op::Flush);
+                }
+                ops.push(Op::Insert { key, val: Val { len: len_for(sizes[key], 7 * round + 3), kind: ValKind::Plain }, ts: Ts::Auto, ttl: 0, bytes: false });
+                ops.push(Op::Flush);
+                if fd.chance(1, 3) {
+                    ops.push(Op::Get { key, bytes: false });
+                }
+            }
+            if fd.chance(1, 2) {
+                let key = fd.below(n as u32) as usize;
+                ops.push(Op::Insert { key, val: Val { len: len_for(sizes[key], 99), kind: ValKind::Plain }, ts: Ts::Auto, ttl: 0, bytes: false });
+                ops.push(Op::Flush);
+            }
+            let total: usize = sizes.iter().sum();
+            (
+                StoreCfg { data_blocks: total as u64 + if fd.chance(1, 3) { 1 } else { 0 }, ttl: false, ..store },
+                keys,
+                vec![ops],
+                SimConfig { shards: 1 + fd.below(2) as usize, workers: 1, ..sim },
+            )
+        } else {
+            (store, keys, clients, sim)
+        };
         let mut knobs = BTreeMap::new();
+        knobs.insert("full_device".into(), full_device as i64);
         let thorough = tier == "thorough";
-        knobs.insert("crash_points".into(), if thorough { if c.chance(1, 3) { -1 } else { 12 } } else if racing_flushers { 6 } else { 3 });
+        knobs.insert("crash_points".into(), if thorough { if c.chance(1, 3) { -1 } else { 12 } } else if racing_flushers || full_device { 6 } else { 3 });
         knobs.insert("images_per_point".into(), if thorough { 64 } else { 10 });
         knobs.insert("tear_unit".into(), *c.pick(&[512i64, 4096]));
         knobs.insert("after_first_ack".into(), (property == "C02") as i64);
@@ -197,22 +242,39 @@ impl Engine for CrashEngine {
         knobs.insert("probe".into(), (property != "C04") as i64);
         // window-edge family (own tape): see run_workload
         let mut we = Tape::fresh(mix(seed, 0x3ED6E));
-        if !ttl_focus && we.chance(1, 6) {
+        if !ttl_focus && !full_device && we.chance(1, 6) {
             // mostly just below the scan window (256 blocks); sometimes well above it, which also
             // makes the filler's retirement a multi-piece marker write (256 blocks per piece)
             let big = we.chance(1, 3);
             knobs.insert("filler_blocks".into(), if big { 270 + we.below(300) as i64 } else { 236 + we.below(18) as i64 });
             knobs.insert("filler_deleted".into(), (big || we.chance(1, 3)) as i64);
         }
+        // second-session family (own tape): the workload is made durable, the store closed cleanly
+        // and opened again, and the new session's first flush is one batch of 60-140 records of
+        // one shard - an allocation-journal image of several sectors, the first journal write after
+        // a reopen. Crash points are put around that write, torn at sector granularity.
+        let mut ss = Tape::fresh(mix(seed, 0x5E55));
+        let second_session = !ttl_focus && !full_device && !knobs.contains_key("filler_blocks") && property != "C12" && ss.chance(1, 7);
+        if second_session {
+            knobs.insert("second_session".into(), 60 + ss.below(80) as i64);
+            knobs.insert("tear_unit".into(), 512);
+            knobs.insert("close_ack".into(), 0);
+        }
         // the workload ends with a clean drop of the store, which acknowledges everything that
         // completed before it (C02: "or the store has been dropped cleanly on a healthy device");
         // crash points may then fall inside or after the close
-        knobs.insert("close_ack".into(), Tape::fresh(mix(seed, 0xC105E)).chance(1, 3) as i64);
+        if !second_session {
+            knobs.insert("close_ack".into(), Tape::fresh(mix(seed, 0xC105E)).chance(1, 3) as i64);
+        }
         // let time pass between the crash and the restart (so that fresh TTLs have expired)
         knobs.insert("downtime_ms".into(), if ttl_focus { *c.pick(&[0i64, 1_500, 2_500, 6_000, 4_000_000]) } else if ttl { *c.pick(&[0i64, 0, 2_500]) } else { 0 });
         let store = match knobs.get("filler_blocks") {
             Some(f) => StoreCfg { data_blocks: (*f as u64).max(256) + 8 + store.data_blocks, ..store },
             None => store,
+        };
+        let (store, sim) = match knobs.get("second_session") {
+            Some(n) => (StoreCfg { data_blocks: store.data_blocks + *n as u64 + 16, ..store }, SimConfig { shards: 1, workers: 1, ..sim }),
+            None => (store, sim),
         };
         Scenario {
             engine: "crash".into(),
@@ -276,6 +338,15 @@ impl Engine for CrashEngine {
             }
             v
         };
+        let mut points = points;
+        if !first.focus_calls.is_empty() {
+            let mut focused: Vec<u64> = first.focus_calls.iter().copied().filter(|p| *p >= lo && *p < total_calls).collect();
+            focused.truncate(if wanted < 0 { 3 } else { 2 });
+            points.retain(|p| !focused.contains(p));
+            points.truncate((wanted.max(1) as usize).saturating_sub(focused.len()).max(if wanted < 0 { usize::MAX } else { 1 }));
+            focused.extend(points);
+            points = focused;
+        }
         for p in points {
             let run = run_workload(sim, sc, Some(p), &mut report);
             let Some(run) = run else { return report };
@@ -299,6 +370,8 @@ pub struct WorkloadRun {
     /// (site, device call index) of protocol steps seen
     pub site_calls: Vec<(&'static str, u64)>,
     pub crashed_inside: bool,
+    /// device calls a directed family wants the power cut at
+    pub focus_calls: Vec<u64>,
 }
 
 /// One client's operations against its own keys, recording every accepted transition.
@@ -465,6 +538,7 @@ fn run_workload(sim: &Arc<Sim>, sc: &Scenario, crash_at_call: Option<u64>, repor
                 ack_calls: Vec::new(),
                 site_calls: Vec::new(),
                 crashed_inside: true,
+                focus_calls: Vec::new(),
             });
         }
         report.fail("open-failed", format!("opening a fresh device failed: {e:?}"));
@@ -544,6 +618,63 @@ fn run_workload(sim: &Arc<Sim>, sc: &Scenario, crash_at_call: Option<u64>, repor
             }
         }
     }
+    let mut second_from_call: Option<u64> = None;
+    let burst = sc.knob("second_session", 0) as usize;
+    if burst > 0 && !disk.is_dead() {
+        // end of the first session: flush (ack), clean close (ack), reopen
+        let invoke = sim.next_event();
+        if env.st().flush().is_ok() && !disk.is_dead() {
+            rec.acks.lock().unwrap().push((invoke, sim.next_event()));
+        }
+        if !disk.is_dead() {
+            let fits = !checks::capacity_risk(&env);
+            let invoke = sim.next_event();
+            env.close();
+            let ret = sim.next_event();
+            if !disk.is_dead() && fits {
+                rec.acks.lock().unwrap().push((invoke, ret));
+                report.count("close_acks", 1);
+            }
+        }
+        if !disk.is_dead() {
+            match env.open() {
+                Ok(()) => {
+                    report.count("second_sessions", 1);
+                    second_from_call = Some(disk.calls());
+                    let store = Arc::clone(env.st());
+                    let mut all_in = true;
+                    for i in 0..burst {
+                        let key = format!("ss:{i:04}").into_bytes();
+                        let value = harness::plain_value(240, 7, i as u32, 24 + (i * 7) % 180);
+                        let inserted = store.insert(&key, &value);
+                        let ret = sim.next_event();
+                        if disk.is_dead() {
+                            break;
+                        }
+                        match (inserted, store.verif_key(&key)) {
+                            (Ok(_), Some(vk)) => rec.hist.lock().unwrap().entry(key).or_default().push(Trans {
+                                state: Some(Gen { value, ts: vk.timestamp, expiry: 0 }),
+                                ret,
+                            }),
+                            _ => all_in = false,
+                        }
+                    }
+                    if all_in && !disk.is_dead() {
+                        let invoke = sim.next_event();
+                        if store.flush().is_ok() && !disk.is_dead() {
+                            rec.acks.lock().unwrap().push((invoke, sim.next_event()));
+                        }
+                    }
+                }
+                Err(e) if !disk.is_dead() => {
+                    report.fail("reopen-failed-after-clean-close", format!("the second session could not open the device the first one closed cleanly: {e:?}"));
+                    env.cleanup();
+                    return None;
+                }
+                Err(_) => {}
+            }
+        }
+    }
     if sc.knob("close_ack", 0) == 1 && !disk.is_dead() {
         // a clean close may legitimately lose what the device has no room for
         let fits = !checks::capacity_risk(&env);
@@ -574,6 +705,15 @@ fn run_workload(sim: &Arc<Sim>, sc: &Scenario, crash_at_call: Option<u64>, repor
         .into_iter()
         .filter_map(|(site, ev)| event_to_call(ev + 1).map(|c| (site, c)))
         .collect();
+    // second-session family: the power goes around the new session's first allocation-journal write
+    let focus_calls: Vec<u64> = match second_from_call {
+        Some(from) => log
+            .iter()
+            .find(|e| e.call >= from && e.op == crate::disk::DevOp::Write && e.offset >= (codec::JOURNAL_START * codec::BLOCK as u64) && e.offset < ((codec::JOURNAL_START + codec::JOURNAL_SLOT_BLOCKS * codec::JOURNAL_SLOTS as u64) * codec::BLOCK as u64))
+            .map(|e| vec![e.call + 1, e.call, e.call + 2])
+            .unwrap_or_default(),
+        None => Vec::new(),
+    };
     let calls = disk.calls();
     let ack_calls: Vec<u64> = acks.iter().map(|(_, ret)| event_to_call(*ret).unwrap_or(calls)).collect();
     // the old instance must terminate on a dead device
@@ -590,6 +730,7 @@ fn run_workload(sim: &Arc<Sim>, sc: &Scenario, crash_at_call: Option<u64>, repor
         ack_calls,
         site_calls,
         crashed_inside,
+        focus_calls,
     })
 }
 
